@@ -229,6 +229,12 @@ def index_refusals_exact(F, S):
 
 def check(F, run, tier):
     S = Summaries(F)
+    from ..rules_archive import verified_names_final
+    run.add(verified_names_final(F, S, F.fn(CLM + "::CreateArchive", nparams=2), CLM + "::CreateArchive"))
+    from ..rules_archive import handlers_rethrow
+    _oh, _nh = handlers_rethrow(F, S, ["/src/"])
+    run.add(_oh)
+    run.floor("exception-handlers", _nh, 7)
     run.declined = DECLINED
     run.explanation = (
         "Static analysis of ClmFile::CreateArchive / ReadHeader / ExtractFile. Decided: R-SEQ (header + index written and read "
